@@ -14,7 +14,7 @@ LATIN1 = ["é", "ü", "Ångström", "ß", "naïve", "Müller", "ø"]
 SPECIAL = ["\\\\{x\\}", " = ", ",\n", "{x}\n", "@string", "@comment", "% WARNING Parsing failed for the following 1 lines.", r"\'e", r"\"o", r"\&", r"\\", r"\%", "e-mail@host.org", "$x^2$", "$a_{i}$", "http://ex.org/a?b=1,c", "a,b", "x=y", "50\\%", "~", "--", "#", "@", "{\\'E}x", "\\{", "\\}", '\\"']
 TYPES = ["article", "book", "Article", "inproceedings", "MISC", "techreport", "a", "x_1", "online"]
 # \w matches far more than ASCII: entry types (and keys) in other scripts, with case mappings that change length
-UTYPES = ["artículo", "Статья", "İnproceedings", "BOOK_ß", "論文", "ǅemal", "ﬁle", "２０２０", "Ångström",
+UTYPES = ["artículo", "Статья", "İnproceedings", "İNPROCEEDINGS", "BOOK_ß", "論文", "ǅemal", "ﬁle", "２０２０", "Ångström",
           "ſtring", "strıng", "STRİNG", "ſtrıng", "cоmment", "prеamble", "misc²"]      # look-alikes of the reserved types are ordinary entry types
 UKEYS = ["Müller2020", "陳:2019", "İstanbul", "straße", "Ǆ1", "é", "ﬁ", "Σίσυφος", "x̃"]
 FKEYS = ["title", "author", "year", "journal", "month", "pages", "note", "url", "Title", "editor", "x-y", "f_1", "volume", "abstract", "doi",
